@@ -190,6 +190,12 @@ var Features = []Feature{
 		t.Cols = append(t.Cols, Col{Name: "1e3", Type: "integer"}, Col{Name: "1000", Type: "integer"})
 		t.Idx = append(t.Idx, Idx{Name: "idx_1e3", Parts: []Part{{Col: "1e3"}}})
 	}},
+	// column names that need escaping inside an HCL reference; each is indexed.
+	{Name: "col_named_with_backslash_and_quote_indexed", Apply: func(d *DB) {
+		t := d.Table("t")
+		t.Cols = append(t.Cols, Col{Name: "x\\y", Type: "integer"}, Col{Name: "q\"r", Type: "integer"})
+		t.Idx = append(t.Idx, Idx{Name: "idx_esc", Parts: []Part{{Col: "x\\y"}, {Col: "q\"r"}}})
+	}},
 	// a default expression written with parentheses of its own.
 	{Name: "col_y1_default_expr_parenthesised", Apply: func(d *DB) {
 		t := d.Table("t")
